@@ -445,6 +445,11 @@ impl Node {
     ///
     /// Transforms the node into a [`Node::Run`] if it is not already a [`Node::Run`]
     pub fn push(&mut self, node: Node) {
+        #[cfg(feature = "verif_hooks")]
+        if !crate::verif::rewrites_on() {
+            self.push_no_inline(node);
+            return;
+        }
         if let Some(Node::Push(val)) = self.last_mut() {
             // Simple inlining
             'blk: {
